@@ -23,6 +23,8 @@ COQ = os.path.join(VERIF, 'coq')
 CASES = os.path.join(COQ, 'cases')
 PY = '/venv/bin/python'
 NPROC = int(os.environ.get('VERIF_NPROC', '16'))
+# where evidence/ and replays/ are written (mutant runs redirect this so that they never clobber real evidence)
+OUT = os.environ.get('VERIF_OUT', VERIF)
 
 FORBIDDEN = re.compile(r'\b(Admitted|admit|Axiom|Axioms|Parameter|Parameters|Conjecture|Conjectures|Admit Obligations)\b'
                        r'|Unset\s+Guard|Unset\s+Positivity|Unset\s+Universe|bypass_check|type-in-type|impredicative-set')
@@ -319,7 +321,7 @@ def known_findings(pid):
 
 
 def write_replay(pid, name, obj):
-    d = os.path.join(VERIF, 'replays')
+    d = os.path.join(OUT, 'replays')
     os.makedirs(d, exist_ok=True)
     path = os.path.join(d, f'{pid}_{name}.json')
     with open(path, 'w', encoding='utf-8') as fh:
@@ -328,7 +330,7 @@ def write_replay(pid, name, obj):
 
 
 def write_evidence(pid, tier_, coverage, wall, violations, assumptions, level='proof'):
-    d = os.path.join(VERIF, 'evidence')
+    d = os.path.join(OUT, 'evidence')
     os.makedirs(d, exist_ok=True)
     ev = {'property_id': pid, 'tier': tier_, 'seed': seed(), 'level': level, 'coverage': coverage,
           'assumptions': assumptions, 'wall_s': round(wall, 2), 'violations': violations}
